@@ -18,6 +18,7 @@ import ast
 import re
 
 from .. import cfg, docs
+from .. import inline
 from ..facts import UNKNOWN, call_name, dotted, norm
 from ..util import func_paths, is_call_named
 
@@ -214,6 +215,24 @@ def check(run, ctx):
             run.finding(G8, f.qual.replace("src.", "", 1), f"falsy-skip:{norm(bad[0].test)}", f"{f.name} returns without validating when `{norm(bad[0].test)}`: a falsy value (0, 0.0, '', false) is then accepted and written although the schema forbids it", f"{f.module.rel}:{bad[0].lineno}")
         else:
             run.ok(G8, f.qual.replace("src.", "", 1), "validation is skipped only for an absent key")
+
+    G9 = run.rule("G9", "the --config path the tool loads from is the path it later writes to (same expression), and a .json configuration is read by the JSON reader its writer's counterpart", floor=2,
+                  decides="`config set` changes the file that was read, and every value the JSON writer emits is read back unchanged")
+    cli_main = next((f_ for f_ in repo.funcs_in("src.cli.main.") if f_.name == "cli"), None)
+    run.require(cli_main is not None, "src.cli.main.cli not found")
+    loads = [c_.args[0] for c_ in ast.walk(cli_main.node) if is_call_named(c_, "load_config") and c_.args]
+    stores = [n.value for n in ast.walk(cli_main.node) if isinstance(n, ast.Assign) and any(isinstance(t, ast.Subscript) and isinstance(t.slice, ast.Constant) and t.slice.value == "config_path" for t in n.targets) and not (isinstance(n.value, ast.Constant) and n.value.value is None)]
+    run.require(bool(loads) and bool(stores), "cli(): load_config(<path>) / ctx.obj['config_path'] = <path> not found")
+    if {norm(x) for x in loads} == {norm(x) for x in stores}:
+        run.ok(G9, "cli --config path", f"loaded and remembered as {norm(loads[0])}")
+    else:
+        run.finding(G9, "cli", f"config-path-mismatch:{sorted(norm(x) for x in stores)}", f"the configuration is loaded from `{norm(loads[0])}` but `{norm(stores[0])}` is remembered as the file to write: for a path the two expressions resolve differently (a literal `~`), `config set` reads defaults and then overwrites the user's real file with them", cli_main.loc)
+    pcf = repo.func("src.core.config_parser.parse_config_file")
+    readers = {call_name(c_) for c_ in inline.flat_nodes(repo, pcf) if isinstance(c_, ast.Call)} | {x.id for x in ast.walk(pcf.node) if isinstance(x, ast.Name)}   # called directly or selected as a function value
+    if {"parse_yaml", "parse_json"} <= readers:
+        run.ok(G9, "parse_config_file", "YAML suffixes -> parse_yaml, .json -> parse_json")
+    else:
+        run.finding(G9, "parse_config_file", f"json-reader-missing:{sorted(readers & {'parse_yaml', 'parse_json'})}", "a .json configuration is not read by parse_json: values that json.dump writes (1e-05, non-BMP characters as surrogate pairs) are read back differently by the YAML loader, so a value `config set` accepted no longer validates or round-trips", pcf.loc)
 
     G7 = run.rule("G7", "the config writers serialise with options under which a validated configuration cannot fail half-way (the file is opened for writing before dump is called)", floor=2,
                   decides="a value that cannot be written does not leave a truncated config file")
